@@ -24,7 +24,7 @@ Qed.
 Lemma tx_abort g n cm ap h i t t' :
   IA g n cm ap h -> g i = Some t ->
   cc t = 2 -> ca t = 0 -> k_ordinal ap + 1 = t_cord t -> k_target ap <> i ->
-  (forall j p, g j = Some p -> j = k_index ap -> k_target ap = k_index ap -> 2 <= ca p) ->
+  (forall j p, g j = Some p -> j = k_index ap /\ k_target ap = k_index ap -> 2 <= ca p) ->
   flds t' = (t_rb t, t_cc t, Aborted, t_cord t, t_rc t, t_ra t, t_rord t, t_ridx t) ->
   IA (updf g i t') n cm ap (h ++ [ev PhChange StApply i Aborted]).
 Proof.
